@@ -28,5 +28,8 @@ for f in k["findings"]:
     what = re.sub(r"^fixed: property=\S+ \S+ ", "", f["what"]).replace("|", "\\|")
     rows.append("| %s | %s | `%s` | %s |" % (f["id"], f["property"], f["commit"], what))
 p2 = p2.replace("FINDINGS_TABLE_PLACEHOLDER", "\n".join(rows))
+import subprocess
+nfix = subprocess.run(["git", "-C", "/repo", "log", "--oneline"], capture_output=True, text=True).stdout.count(" fix:")
+p2 = p2.replace("NFIX", str(nfix))
 open(os.path.join(V, "DESIGN.md"), "w").write(part1 + p2)
 print("DESIGN.md: part I %d lines, part II %d lines" % (part1.count("\n"), p2.count("\n")))
